@@ -261,6 +261,35 @@ def rule_r3(ctx):
                 ctx.r.violation(rid, key_of(f, None, "app-before-clearing"), "the application can be called without the untrusted headers having been cleared", f.loc(a.ast))
 
 
+def rule_r3b(ctx, rid="C15.R3"):
+    """second part of R3: inside clear_untrusted_headers every name of the set it is given is popped"""
+    p = ctx.p
+    f = p.func("proxy_headers.clear_untrusted_headers")
+    env, names = f.params[0], f.params[1]
+    rebound = [x for x in ast.walk(f.node) if isinstance(x, ast.Name) and x.id == names and isinstance(x.ctx, (ast.Store, ast.Del))]
+    pops = []
+    for x in ast.walk(f.node):
+        it = None
+        if isinstance(x, (ast.ListComp, ast.SetComp, ast.GeneratorExp)) and len(x.generators) == 1:
+            it, body, flt = x.generators[0].iter, [x.elt] + list(x.generators[0].ifs), []
+        elif isinstance(x, ast.For):
+            it, body, flt = x.iter, x.body, []
+        if it is None:
+            continue
+        if any(isinstance(c, ast.Call) and isinstance(c.func, ast.Attribute) and c.func.attr == "pop" and dotted(c.func.value) == env for b in body for c in ast.walk(b)):
+            pops.append((x, it))
+    if not pops:
+        raise AnalysisError("anchor vanished: the loop popping the untrusted headers in clear_untrusted_headers")
+    for x, it in pops:
+        # the pop must not sit behind a filter on the name either
+        guarded = isinstance(x, ast.For) and any(isinstance(st, ast.If) and any(isinstance(c, ast.Call) and isinstance(c.func, ast.Attribute) and c.func.attr == "pop" for b in st.body for c in ast.walk(b))
+                                                 and not any(isinstance(c, ast.Call) and isinstance(c.func, ast.Attribute) and c.func.attr == "pop" for c in ast.walk(st.test)) for st in x.body)
+        if isinstance(it, ast.Name) and it.id == names and not rebound and not guarded:
+            ctx.r.ok(rid, "clear_untrusted_headers pops every name of the set it is given", f.loc(x))
+        else:
+            ctx.r.violation(rid, key_of(f, None, "cleared-subset"), "clear_untrusted_headers pops over `%s`%s, not over the whole set it was given: some untrusted proxy headers reach the application although clearing is on" % (norm(it)[:50], " (the parameter is re-bound: %s)" % norm(rebound[0])[:30] if rebound else ""), f.loc(x))
+
+
 def rule_r4(ctx):
     rid = "C15.R4"
     ctx.r.rule(rid, "every function that stores REMOTE_ADDR/REMOTE_HOST/REMOTE_PORT/SERVER_NAME/SERVER_PORT/HTTP_HOST/wsgi.url_scheme is get_environment or parse_proxy_headers")
@@ -416,7 +445,7 @@ def rule_r8(ctx, rid="C15.R8"):
         ctx.r.ok(rid, "Adjustments.trusted_proxy is stored only by the generic option loop", init.loc(sets[0]) if sets else init.loc())
 
 
-RULES = [rule_r1, rule_r2, rule_r3, rule_r4, rule_r5, rule_r6, rule_r7, rule_r8]
+RULES = [rule_r1, rule_r2, rule_r3, rule_r3b, rule_r4, rule_r5, rule_r6, rule_r7, rule_r8]
 
 from ..selftest import M, T, V  # noqa: E402
 
